@@ -959,9 +959,24 @@ class RTDCWriter:
                 **self.compression_kwargs)
             line_offset = 0
         else:
-            # TODO: test whether fixed length is long enough!
-            # Resize the dataset
             txt_dset = group[name]
+            if (txt_dset.dtype.kind == "S"
+                    and txt_dset.dtype.itemsize < max_length):
+                # The fixed length of the existing dataset is too short
+                # for the new lines. Re-create it with a larger length.
+                old_lines = txt_dset[:]
+                del group[name]
+                txt_dset = group.create_dataset(
+                    name,
+                    shape=old_lines.shape,
+                    dtype=f"S{max_length}",
+                    maxshape=(None,),
+                    chunks=True,
+                    fletcher32=True,
+                    **self.compression_kwargs)
+                if old_lines.size:
+                    txt_dset[:] = old_lines.astype(f"S{max_length}")
+            # Resize the dataset
             line_offset = txt_dset.shape[0]
             txt_dset.resize(line_offset + lnum, axis=0)
 
